@@ -35,7 +35,7 @@ def _load(rng, h, tmp, fmt, follow):
                 for t in (list(v) if f.many else ([v] if v is not None else [])):
                     _ = t.eClass
         res = [rset2.get_resource(URI(p)) for p in paths]
-        for r in res:
+        for r in (res if follow is True else []):      # follow == 'first': the other resources' references stay unfollowed
             for o in c14.preorder(r.contents):
                 for f in _refs(o):
                     v = o.eGet(f)
@@ -78,14 +78,26 @@ def symmetry_pass(ctx, tag='C01'):
             rng = common.sub_rng(ctx.seed, tag, 'cross', h)
             fmt = 'xmi' if h % 3 != 2 else 'json'
             try:
-                sp, built, rset2, res, ncross = _load(rng, h, tmp, fmt, True)
+                sp, built, rset2, res, ncross = _load(rng, h, tmp, fmt, True if h % 2 == 0 else 'first')
             except Exception as e:      # what a reload itself may do wrong is C14's question
                 ctx.count('cross/setup-raised/' + type(e).__name__)
                 continue
             objs = [o for r in res for o in c14.preorder(r.contents)]
             pairs = [(o, f) for o in objs for f in _refs(o)
                      if f.eOpposite is not None and not f.containment and not f.eOpposite.containment]
-            if not pairs or asymmetric(objs):
+            partial = h % 2 == 1
+            if partial:
+                # judging symmetry follows every proxy: it is done on a second, identical load, so that the first call of
+                # this one meets back references nobody has followed yet
+                try:
+                    rng_b = common.sub_rng(ctx.seed, tag, 'cross', h)
+                    _sp, _b, _rs, res_b, _n = _load(rng_b, h + 1000000, tmp, fmt, True)
+                    ok0 = not asymmetric([o for r in res_b for o in c14.preorder(r.contents)])
+                except Exception:
+                    ok0 = False
+            else:
+                ok0 = not asymmetric(objs)
+            if not pairs or not ok0:
                 ctx.count('cross/no-pairs-or-not-symmetric-as-loaded')
                 continue
             log = []
